@@ -85,6 +85,11 @@ def build(case):
         mods['Hd'] = {'hard': True, 'rectangles': [[W * 0.5, H * 0.5, W * 0.5, H * 0.5],
                                                    [W * 0.5 - W * 0.2, H * 0.5 + H * 0.25 + H * 0.03, W * 0.1, H * 0.06]]}
         names.append('Hd')
+    elif extra == 'fixedpair':
+        # a fixed pad whose only net goes to a fixed block (which in turn is connected to movable modules)
+        mods['F'] = {'fixed': True, 'rectangles': [[W * 0.75, H * 0.25, W / 10, H / 10]]}
+        mods['P'] = {'terminal': True, 'fixed': True, 'center': [W, H * 0.25]}
+        names.extend(['F', 'P'])
     elif extra == 'mterm':
         # a movable terminal (no area, no rectangles)
         mods['Tm'] = {'terminal': True, 'center': [W * 0.3, H * 0.3]}
@@ -100,6 +105,10 @@ def build(case):
     if extra in ('fixed', 'hard', 'bighard', 'mterm'):
         nets.append([names[-1], 'M0'])
         nets.append([names[-1], f'M{n - 1}', 2])
+    elif extra == 'fixedpair':
+        nets.append(['P', 'F'])
+        nets.append(['F', 'M0'])
+        nets.append(['F', f'M{n - 1}', 2])
     elif extra == 'pins':
         nets.append(['P0', 'M0'])
         nets.append(['P1', f'M{n - 1}', 2])
@@ -196,6 +205,7 @@ def configurations(tier):
         cfgs.append(dict(topo='star', masses='equal', extra='bighard', die=[4, 4], n=4, trials=1, menu=2, reduced5=True))
         cfgs.append(dict(topo='cycle', masses='unequal', extra='pins', die=[6, 4], n=4, trials=1, menu=2))
         cfgs.append(dict(topo='path', masses='equal', extra='mterm', die=[6, 4], n=4, trials=1, menu=2, reduced5=True))
+        cfgs.append(dict(topo='cycle', masses='equal', extra='fixedpair', die=[6, 4], n=4, trials=2, menu=2, reduced4=True))
         # the same graph and die with other areas (placed after the ones above in the same shard)
         cfgs.append(dict(topo='path', masses='unequal', extra='none', die=[6, 4], n=4, trials=1, menu=2, scale=3.0, reduced4=True))
     else:
